@@ -29,12 +29,13 @@ def sh(cmd, cwd=copy, extra=None, timeout=3000):
 
 howto = open(os.path.join(src, "HOWTO.txt")).read() if os.path.exists(os.path.join(src, "HOWTO.txt")) else ""
 seedroot = re.search(r"/tmp/seed_c\d+", howto + src).group(0)
-m = re.search(r"cp\s+(?:-r\s+)?(\S*demo\S*)\s+(\S+)", howto)
+m = re.search(r"cp\s+(?:-r\s+)?(\S*demo\S*)\s+(\S+)", howto) or re.search(r"copy\s+(\S*demo\S*)\s+to\s+(\S+)", howto)
 demo_src = os.path.join(src, os.path.basename(m.group(1).rstrip("/"))) if m else os.path.join(src, "demo_test.go")
 demo_dst = m.group(2).replace(seedroot, copy) if m else None
 runs = re.findall(r"(go (?:test|run)[^\n]*)", howto)
 run_cmd = [r for r in runs if "-run" in r or "go run" in r]
-run_cmd = (run_cmd[-1] if run_cmd else runs[-1]).replace(seedroot, copy).strip().rstrip("`")
+run_cmd = (run_cmd[-1] if run_cmd else runs[-1]).replace(seedroot, copy).strip().rstrip("`").rstrip("\\").strip()
+run_cmd = "cd %s && %s" % (copy, run_cmd)
 if "CGO_ENABLED" in howto and "CGO_ENABLED" not in run_cmd:
     run_cmd = "CGO_ENABLED=1 " + run_cmd
 assert demo_dst, "no cp line for the demonstration in HOWTO.txt"
